@@ -413,7 +413,7 @@ func genC08(p *Plan, tier string) {
 		req, _ := build(l)
 		n := 1500
 		if tier == "thorough" {
-			n = 20000
+			n = 6000
 		}
 		p.Ops = append(p.Ops, &Op{Kind: "freq", ID: "F", Freq: &FreqSpec{Template: req, Pos: pos, P: pr, N: n, SeedSeed: r.Uint64() >> 8, Sigma: 6}})
 	}
